@@ -41,10 +41,7 @@ func checkC16Tree(t *Toks) string {
 	}
 	leaves := tapToLeaves(ls)
 	seen := map[[32]byte]bool{}
-	for i, l := range leaves {
-		if ls[i].ver&1 == 1 {
-			return "SKIP odd-leaf-version"
-		}
+	for _, l := range leaves {
 		h := l.TapHash()
 		if seen[h] {
 			return "SKIP repeated-leaf"
@@ -99,6 +96,12 @@ func checkC16Tree(t *Toks) string {
 		if err := taproot.VerifyTaprootLeafCommitment(&cb, prog, ls[i].script); err != nil {
 			return fail("leaf.verify", fmt.Sprintf("leaf=%d/%d", i, n))
 		}
+		// a block built in memory whose leaf version differs from the committed one in bit 0 only
+		forged := cb
+		forged.LeafVersion ^= 1
+		if taproot.VerifyTaprootLeafCommitment(&forged, prog, ls[i].script) == nil {
+			return fail("other.version.lowbit", fmt.Sprintf("v=%02x/leaf=%d/%d", byte(forged.LeafVersion), i, n))
+		}
 		bs, err := cb.ToBytes()
 		if err != nil {
 			return fail("cb.tobytes", "error")
@@ -109,6 +112,18 @@ func checkC16Tree(t *Toks) string {
 		}
 		if re, err := parsed.ToBytes(); err != nil || !bytes.Equal(re, bs) {
 			return fail("cb.roundtrip", "bytes-differ")
+		}
+		if ls[i].ver&1 == 1 {
+			// an odd leaf version is not representable in control-block bytes (bit 0 of the first
+			// byte is the parity flag): the parsed block carries version&0xfe, which is another
+			// leaf version and must not prove this leaf. Nothing more is required of it.
+			if byte(parsed.LeafVersion) != ls[i].ver&0xfe {
+				return fail("odd.version.parse", fmt.Sprintf("leaf=%d/%d", i, n))
+			}
+			if taproot.VerifyTaprootLeafCommitment(parsed, prog, ls[i].script) == nil {
+				return fail("odd.version.roundtrip", fmt.Sprintf("leaf=%d/%d", i, n))
+			}
+			continue
 		}
 		if err := taproot.VerifyTaprootLeafCommitment(parsed, prog, ls[i].script); err != nil {
 			return fail("cb.roundtrip.verify", fmt.Sprintf("leaf=%d/%d", i, n))
